@@ -174,8 +174,11 @@ func (g *Gen) genDeepcopyProgram(prefix string, npk int, arrayRefs bool) ([]dcPk
 			// their types (last directory + "_" + type name) sort differently: the first package's last
 			// (z0_...), the others' before nearly everything else in the universe (A1_... < Array_...,
 			// B2_... < Map_... < bool)
-			pk.Name = []string{"z0", "A1", "B2"}[p]
-			pk.Path = fmt.Sprintf("ex.test/%s%c/%s", prefix, 'a'+p, pk.Name)
+			leaf := []string{"z0", "A1", "B2"}[p]
+			pk.Path = fmt.Sprintf("ex.test/%s%c/%s", prefix, 'a'+p, leaf)
+			// ... and the package clause does not say the directory's name (an import line that is missing
+			// cannot be guessed back from the identifier used in the code)
+			pk.Name = "pk" + strings.ToLower(leaf)
 		}
 		d.pkgs = append(d.pkgs, pk)
 		cur := &d.pkgs[p]
